@@ -199,8 +199,46 @@ def run(repo='/repo', tier='quick'):
             not (any(a[0].endswith('response_status_number') and a[1] == '>=' and a[2] == '200' for a in facts) and any(a[0].endswith('response_status_number') and a[1] == '<=' and a[2] == '299' for a in facts))
         res.check(ok, 'C16.d', ff.name + ':sets-flag-only-for-refused-CONNECT', 'set only for a CONNECT answered with neither 2xx nor 407',
                   'the yield-at-end flag is set outside the refused-CONNECT arm', x['loc'])
+    c16g(db, res)
     res.assumptions.append('"no request byte skipped or parsed twice" is decided only as: the suspension/probe paths do not move the cursor; values are not tracked')
     if tier == 'thorough':
         from .. import typestate
         typestate.check_sticky(db, res, 'C16.f')
     return res
+
+
+def c16g(db, res):
+    """The suspended request side is released by the gate in REQ_CONNECT_WAIT_RESPONSE, which reads the transaction's response
+    progress against a phase constant L ("the final status line has been seen").  The response side can return to the
+    status-line state for the same transaction (interim 1xx); every such return must put the progress back to L, or the
+    interim response releases the gate and the CONNECT is judged on status 100."""
+    res.rule('C16.g', 'the CONNECT wait gate reads response_progress against a phase L; every store of out_state = (status-line state) resets response_progress to L in the same function on every path')
+    gate = db.get('htp_connp_REQ_CONNECT_WAIT_RESPONSE')
+    L = None
+    for b in gate.blocks:
+        c = gate.cond_of(b)
+        if c:
+            a = P.canon(c[0])
+            if a and a[0].endswith('response_progress') and a[1] in ('<=', '>', '<', '>='):
+                L = a[2]
+    if L is None:
+        raise AnalysisBroken('C16.g: the gate on response_progress in htp_connp_REQ_CONNECT_WAIT_RESPONSE was not found')
+    # the status-line state: the out_state stored together with the first store of progress = L when a response starts
+    start = db.get('htp_tx_state_response_start')
+    line_states = {S(x['r']) for b, i, x in P.field_writes(start, 'out_state') if x['k'] == 'assign'
+                   and any(lit_name(y['r']) == L for b2, i2, y in P.field_writes(start, 'response_progress') if b2 == b)}
+    if not line_states:
+        raise AnalysisBroken('C16.g: htp_tx_state_response_start no longer stores the status-line state next to response_progress = %s' % L)
+    n = 0
+    for name, f in sorted(db.fn.items()):
+        for b, i, x in P.field_writes(f, 'out_state'):
+            if x['k'] != 'assign' or S(x['r']) not in line_states:
+                continue
+            n += 1
+            isreset = lambda st: any(y['k'] == 'assign' and lit_name(y['r']) == L for y in P.assigns_field(st, 'response_progress'))
+            before = any(isreset(st) for b2, i2, st in f.stmts() if (b2 == b and i2 < i) or (b2 != b and b2 in C.dominators(f).get(b, ())))
+            ok, why = C.every_path_passes(f, (b, i), None, isreset)
+            res.check(before or ok, 'C16.g', '%s:out_state=%s:resets-progress' % (name, S(x['r'])),
+                      'response_progress = %s on every path through this store' % L,
+                      'the response parser goes back to the status-line state without response_progress = %s: the gate (progress <= %s) in REQ_CONNECT_WAIT_RESPONSE is released by an interim response' % (L, L), x['loc'])
+    res.floor('C16.g', 'stores of the status-line state into out_state', n, 2)
